@@ -5,7 +5,7 @@ from __future__ import annotations
 import itertools
 
 ATTR_NAMES = ["class", "id", "style", "lang", "title", "dir", "align", "width", "colspan", "rowspan", "data-x",
-              "data-sort-value", "scope", "valign", "bgcolor", "x1"]
+              "data-sort-value", "scope", "valign", "bgcolor", "x1", "colSpan", "viewBox", "DATA-X", "aB"]
 ODD_NAMES = ["data_x", "a.b", "xml:lang", "x_"]          # URL-safe, but outside [-a-zA-Z0-9]: own input class
 VALCH = "abcdefghijklmnopqrstuvwxyzABCDEFGHIJKLMNOPQRSTUVWXYZ0123456789"
 VALX = "_.~-"
